@@ -161,17 +161,17 @@ Print Assumptions C07_T3_comment_partial.
 
 (** C07 (partial): the composition T3 ; T2 ; T1 ; T4 on whole documents.
     [C07_partial_dom ls d] = [C07_dom ls d] (no root cause of a known finding)
-    && every line [line_simple] && [d] is directives-then-groups.
-    For every such document [d] = directives then statement groups, every layout
-    [ls] of it (line breaks at ANY token boundary, tabs / repeated blanks,
-    whole-line and trailing comments), inside [C07_dom] (no root cause of a
-    known finding) and with [line_simple] lines (a line with a string literal
-    carries no comment and no blank-# inside a literal; comments elsewhere are
-    quote-free), the reader run on the TEXT of the document yields exactly
-    the triples of the document (up to lexical forms), in order, raises
+    && every line [line_simple] (a line with a string literal carries no
+    comment and no blank-# inside a literal; comments elsewhere are quote-free).
+    For EVERY document [d] of the dialect (directives anywhere between
+    statement groups) and EVERY layout [ls] of it (line breaks at ANY token
+    boundary, tabs / repeated blanks, whole-line and trailing comments) in that
+    domain, the reader run on the TEXT of the document yields exactly the
+    triples of the document (up to lexical forms), in document order, raises
     nothing, does not hang, and ends waiting for a subject.
-    Missing for the full C07: directives between statement groups, and the
-    lines excluded by [line_simple] (see T3). *)
+    Missing for the full C07: only the lines excluded by [line_simple] (see
+    T3); there the theorem's hypothesis fails and the correspondence check is
+    the only evidence. *)
 Theorem C07_partial : forall ls d ts,
   lays_out ls d -> C07_partial_dom ls d = true -> sem d = Some ts ->
   exists s' ts', read_ttl (render_doc ls) = (ts', Ok s') /\
